@@ -1035,6 +1035,16 @@ def run_c14(ctx):
     if r.returncode != 0:
         raise pv.ToolError("pv-conc cli failed: " + r.stdout[-1000:])
     validate_file(ctx, "cli", cle, chunk=100)
+    # the same programs as chains of library steps validated against Step, with the blocks the front end
+    # prints judged as renderings (PushText) of those states
+    binpath = os.path.join(bdir, "debug", "pushr")
+    cs2 = []
+    for c in cs:
+        pre = gen.empty_state()
+        pre["bind"] = {"BIN": {"k": "id", "v": binpath}}
+        cs2.append({"id": "cliref-" + c["id"], "pre": pre, "acts": [{"a": "parse", "text": c["text"]}, {"a": "copy_to_code"},
+                                                                     {"a": "steps", "k": 300}, {"a": "cli", "text": c["text"]}]})
+    run_events(ctx, "cli_refinement", cs2, env={"PV_CLI_BIN": binpath})
 
 
 def run_c15(ctx):
@@ -1161,7 +1171,33 @@ def run_c01(ctx):
         run_events(ctx, "rand_instr_release", random_instr_cases(ctx, ctx.registry, 100, ctx.seed + 4), profile="release")
 
 
+def run_ext(ctx):
+    """Extended coverage: behaviour the specification describes beyond the twenty listed properties.
+    A deviation is reported under the pseudo-property EXT (this plan is not registered in MANIFEST.json)."""
+    q = ctx.tier == "quick"
+    g0 = gen.Gen(ctx.seed + 301, ctx.registry)
+    class Dyadic(gen.Gen):          # floats whose decimal rendering the specification gives exactly
+        def float(self):
+            r = self.r
+            return r.choice([gen.f2b(r.randint(-4000, 4000) / r.choice([1, 2, 4, 8, 16, 32, 64, 1024])), gen.f2b(float("inf")), gen.f2b(float("-inf")),
+                             2143289344, 0, -2147483648, gen.f2b(0.25), gen.f2b(-0.75), gen.f2b(2.5e-4 * 0 + 0.0625)])
+    g1 = Dyadic(ctx.seed + 302, ctx.registry)
+    cs = []
+    # Display of the whole state
+    for i in range(300 if q else 20000):
+        g = g0 if i % 4 == 0 else g1
+        s = g.state(depth=3, with_graph=(i % 3 == 0))
+        s["exec"] = [g.item(g.r.randint(1, 6)) for _ in range(g.r.randint(0, 3))]
+        if i % 5 == 0:
+            s["name"] = [g.r.choice(["a", " lead", "trail ", "\nNODES(0): \nEDGES(0): ", "x y", "\u00e9", ""]) for _ in range(g.r.randint(1, 3))]
+        if i % 7 == 0:
+            s["bind"] = {k: g.item(g.r.randint(1, 3)) for k in g.r.sample(["a", "B", "ab", "a.b", "a-b", "Z", "_x", "b", "aa", "A1", "a1", "~", "0"], g.r.randint(0, 6))}
+        cs.append({"id": "statetext-%05d" % i, "pre": s, "acts": [{"a": "state_text"}, {"a": "steps", "k": 2}, {"a": "state_text"}]})
+    run_events(ctx, "state_text", cs)
+
+
 PLANS = {
+    "EXT": dict(run=run_ext),
     "C01": dict(run=run_c01, judge=dict(owns_crash=True), rule="a case = (program, initial state); non-trivial = the recorded step reached an instruction or unpacked a list"),
     "C02": dict(run=run_c02),
     "C03": dict(run=run_c03),
@@ -1242,8 +1278,11 @@ def finish(ctx, plan, viol, known, wall):
           "wall_s": round(wall, 1), "violations": len(viol)}
     if plan.get("rule"):
         ev["coverage"]["rule"] = plan["rule"]
-    os.makedirs(pv.EVIDENCE_DIR, exist_ok=True)
-    json.dump(ev, open(os.path.join(pv.EVIDENCE_DIR, ctx.pid + ".json"), "w"), indent=1)
+    if ctx.pid == "EXT":      # extended coverage is not a listed property: its record is kept apart from evidence/
+        json.dump(ev, open(os.path.join(pv.OUT if pv.ALT else os.path.join(pv.VERIF, "docs"), "ext-coverage.json"), "w"), indent=1)
+    else:
+        os.makedirs(pv.EVIDENCE_DIR, exist_ok=True)
+        json.dump(ev, open(os.path.join(pv.EVIDENCE_DIR, ctx.pid + ".json"), "w"), indent=1)
     print("%s %s: %d TLC states, %d events validated, %d violations, %d known-finding kinds, %.0fs" % (ctx.pid, ctx.tier, st["states"], st["events"], len(viol), len(known), wall))
     return 1 if viol else 0
 
